@@ -5,7 +5,7 @@
 //! and the host loop for *generated* exports (the `[async-lift]` entry point and the
 //! `[callback]` export instead of e2's in-process `start_task`).
 
-use crate::c8_harness::{ARM_CALLBACK, ARM_DRIVE, BUILTINS, IDX_BUILTIN, IDX_DRIVE_RETURN, IDX_PAUSE, IDX_TASK_RETURN};
+use crate::c8_harness::{ARM_CALLBACK, ARM_DRIVE, BUILTINS, IDX_ASK, IDX_BUILTIN, IDX_DRIVE_RETURN, IDX_PAUSE, IDX_RES_CTOR, IDX_RES_DROP, IDX_TASK_RETURN};
 use crate::c8_world::{Sig, Variant, DRIVE_CB_SYM, DRIVE_SYM, IFACE};
 use crate::host::{dlsym, Dir, GuestMem, Lib};
 use crate::nlower::{self, NMem, W};
@@ -32,6 +32,16 @@ struct SubMeta {
     returned: bool,
 }
 
+/// Where an owned handle of the imported resource is (indices are never reused).
+#[derive(Clone, Copy, Debug, PartialEq, Eq)]
+enum HState {
+    Guest,
+    /// lifted by the host when the callee started
+    Transferred,
+    /// `[resource-drop]` by the guest
+    Dropped,
+}
+
 #[derive(Default)]
 pub struct Obs {
     /// what the host lifted from the guest: import parameters / export result
@@ -41,6 +51,10 @@ pub struct Obs {
     pub task_returns: u32,
     pub task_cancels: u32,
     pub cancelled: bool,
+    /// the guest dropped the call future at a pending poll
+    pub call_dropped: bool,
+    pub handles_transferred: u32,
+    pub handles_dropped_by_guest: u32,
 }
 
 pub struct Exec {
@@ -56,6 +70,8 @@ pub struct Exec {
     /// task index of the export under test (its task.return carries the value)
     main_task: Option<usize>,
     host_allocs: usize,
+    /// handle table of the imported resource `thing`: `(id, state)`, handle = index + 1
+    things: Vec<(u32, HState)>,
 }
 
 static mut EXEC: Option<Exec> = None;
@@ -81,6 +97,7 @@ pub fn install(lib: Lib, sigs: Vec<Sig>, variant: Variant) {
             obs: Obs::default(),
             main_task: None,
             host_allocs: 0,
+            things: Vec::new(),
         });
     }
 }
@@ -117,6 +134,32 @@ impl Exec {
                     violation(TAG, &key("import-param"), format!("host cannot lift the import parameters: {e}"));
                 }
             }
+            Ok(vs) if self.sig.res => {
+                // lift_own: every owned handle in the parameter moves to the host now
+                let mut owned = Vec::new();
+                let mut other = Vec::new();
+                for (t, v) in self.sig.params.iter().zip(&vs) {
+                    refabi::ty::handles_in(t, v, &mut owned, &mut other);
+                }
+                for h in &owned {
+                    match self.things.get_mut((*h as usize).wrapping_sub(1)) {
+                        Some((_, st)) if *st == HState::Guest => {
+                            *st = HState::Transferred;
+                            self.obs.handles_transferred += 1;
+                        }
+                        Some((id, st)) => violation(TAG, &key("own-handle:stale-in-params"), format!("handle {h} (thing {id}) is lowered as an owned parameter but is already {st:?}")),
+                        None => violation(TAG, &key("own-handle:unknown-in-params"), format!("handle {h} in the parameters was never given to the guest")),
+                    }
+                }
+                let v = self.ids_for_handles(&Val::Record(vs));
+                trace(format!("host: callee starts, parameters {v} (handles shown as thing ids)"));
+                self.obs.host_saw = Some(v.to_string());
+                self.obs.host_saw_count += 1;
+                let want = self.sig.expect.clone().unwrap_or(Val::Record(vec![]));
+                if !wire::same(&v, &want) {
+                    violation(TAG, &key("import-param"), format!("host received {v} but the guest built {want}"));
+                }
+            }
             Ok(vs) => {
                 let v = Val::Record(vs);
                 trace(format!("host: callee starts, parameters {v}"));
@@ -126,6 +169,17 @@ impl Exec {
                     violation(TAG, &key("import-param"), format!("host received {v} but the guest was told to send {}", self.v1));
                 }
             }
+        }
+    }
+
+    /// Replace handle indices by the ids of the things they name.
+    fn ids_for_handles(&self, v: &Val) -> Val {
+        match v {
+            Val::Handle(h) => Val::Handle(self.things.get((*h as usize).wrapping_sub(1)).map(|t| t.0).unwrap_or(0xdead_0000 | *h)),
+            Val::List(xs) => Val::List(xs.iter().map(|x| self.ids_for_handles(x)).collect()),
+            Val::Record(xs) => Val::Record(xs.iter().map(|x| self.ids_for_handles(x)).collect()),
+            Val::Variant(i, Some(p)) => Val::Variant(*i, Some(Box::new(self.ids_for_handles(p)))),
+            o => o.clone(),
         }
     }
 
@@ -185,7 +239,9 @@ impl Exec {
         }
         // `pause` exists to suspend the export body: its default answer is STARTING, so that the
         // cancellation of a suspended export costs one deviation less
-        let blocked = matches!(kind, SubKind::Pause);
+        // resource signatures likewise start out STARTING: the cancel-before-start schedule is
+        // then one deviation (the guest's decision to drop the call future) away
+        let blocked = matches!(kind, SubKind::Pause) || self.sig.res;
         let rc = with(|h| {
             let old = h.prefer_blocked;
             h.prefer_blocked = blocked;
@@ -223,6 +279,34 @@ unsafe fn dispatch_inner(k: u32, args: *const u64, nargs: u32, ret: *mut u64) {
     }
     if k == IDX_DRIVE_RETURN {
         task_return_seen(false, &[]);
+        return;
+    }
+    if k == IDX_ASK {
+        let c = choose("drop-call-future", raw[0] as usize);
+        if c == 1 {
+            trace("guest: drops the call future at a pending poll".to_string());
+            e.obs.call_dropped = true;
+        }
+        unsafe { *ret = c as u64 };
+        return;
+    }
+    if k == IDX_RES_CTOR {
+        e.things.push((raw[0] as u32, HState::Guest));
+        unsafe { *ret = e.things.len() as u64 };
+        return;
+    }
+    if k == IDX_RES_DROP {
+        let h = raw[0] as u32;
+        match e.things.get_mut((h as usize).wrapping_sub(1)) {
+            Some((id, st)) if *st == HState::Guest => {
+                trace(format!("guest: [resource-drop]thing({h}) (thing {id})"));
+                *st = HState::Dropped;
+                e.obs.handles_dropped_by_guest += 1;
+            }
+            Some((id, HState::Transferred)) => violation(TAG, &key("own-handle:dropped-after-transfer"), format!("the guest dropped handle {h} (thing {id}) although the callee had started and taken it")),
+            Some((id, _)) => violation(TAG, &key("own-handle:double-drop"), format!("the guest dropped handle {h} (thing {id}) twice")),
+            None => violation(TAG, &key("own-handle:unknown-drop"), format!("the guest dropped handle {h}, which it never had")),
+        }
         return;
     }
     if k >= IDX_TASK_RETURN {
@@ -529,17 +613,20 @@ pub fn run(case: &Case, prefix: Vec<usize>) -> Value {
     e.obs = Obs::default();
     e.main_task = None;
     e.host_allocs = 0;
+    e.things.clear();
     let api = e.lib.api;
     let variant = e.variant;
     let sig = case.sig.clone();
-    for (t, v) in [(sig.params_ty(), case.v1), (sig.result_ty(), case.v2)] {
+    // resource signatures: the guest builds the parameter itself, the channel carries `()`
+    let chan_params_ty = if sig.res { refabi::Ty::Tuple(vec![]) } else { sig.params_ty() };
+    for (t, v) in [(chan_params_ty.clone(), case.v1), (sig.result_ty(), case.v2)] {
         if let Err(err) = nlower::self_check(&t, v) {
             vcommon::machinery(&format!("native lowering self-check failed: {err}"));
         }
     }
     let mut b1 = Vec::new();
     let mut b2 = Vec::new();
-    wire::encode(case.v1, &sig.params_ty(), &mut b1);
+    wire::encode(case.v1, &chan_params_ty, &mut b1);
     wire::encode(case.v2, &sig.result_ty(), &mut b2);
     let mut obs_buf = vec![0u8; 1 << 16];
     unsafe {
@@ -650,6 +737,16 @@ pub fn run(case: &Case, prefix: Vec<usize>) -> Value {
             }
         });
     }
+    // owned handles: cancelled before the callee started => the guest re-owns and drops every
+    // lowered handle exactly once; started / returned => the callee took them, the guest drops none
+    if outcome == "done" {
+        let e = ex();
+        for (i, (id, st)) in e.things.iter().enumerate() {
+            if *st == HState::Guest {
+                violation(TAG, &key("own-handle:leaked"), format!("handle {} (thing {id}) was neither taken by the callee nor dropped by the guest", i + 1));
+            }
+        }
+    }
     // ledger
     let mut ledger: Vec<String> = Vec::new();
     unsafe { (api.audit)() };
@@ -712,7 +809,8 @@ pub fn run(case: &Case, prefix: Vec<usize>) -> Value {
             "user_saw": user_saw, "user_count": user_count, "export_calls": export_calls,
             "host_saw": e.obs.host_saw, "host_saw_count": e.obs.host_saw_count,
             "import_calls": e.obs.import_calls, "task_returns": e.obs.task_returns, "task_cancels": e.obs.task_cancels,
-            "cancelled": e.obs.cancelled, "ledger": ledger,
+            "cancelled": e.obs.cancelled || e.obs.call_dropped, "call_dropped": e.obs.call_dropped,
+            "handles_transferred": e.obs.handles_transferred, "handles_dropped_by_guest": e.obs.handles_dropped_by_guest, "ledger": ledger,
         },
     })
 }
